@@ -71,6 +71,9 @@ func checkC12(P *core.Program, R *core.Report) {
 	checkDeductGuards(P, R)
 	checkLiquidationFlag(P, R)
 	checkSnapshotWriteBack(P, R, "C12-fresh-writeback", subjects, "x/commitment/keeper.Keeper.GetParams", "x/commitment/keeper.Keeper.SetParams")
+	// the per-account record: a Commitments snapshot written back after a call (a hook, a
+	// callee) that loads and stores the same account's record itself discards that update
+	checkSnapshotWriteBack(P, R, "C12-fresh-writeback", subjects, "x/commitment/keeper.Keeper.GetCommitments", "x/commitment/keeper.Keeper.SetCommitments")
 }
 
 // checkSubTotalShape: subTotalCommitted(total, coins) subtracts, per coin,
